@@ -30,7 +30,7 @@ def sparse_mask(draw, H, W, max_entries=6):
 
 @st.composite
 def image_pair(draw, min_rows=5, max_rows=12, min_cols=6, max_cols=14, max_val=20, masks=True, tile_max=None,
-               conventions=True):
+               conventions=True, texture=False):
     """Integer-valued radiometry.  mode 'indep': both images explicit; mode 'shift': right = left shifted by s
     columns (edges from `fill`) with a few perturbed pixels.  Large images: a small tile is repeated (tile_max)."""
     H = draw(st.integers(min_rows, max_rows))
@@ -41,8 +41,15 @@ def image_pair(draw, min_rows=5, max_rows=12, min_cols=6, max_cols=14, max_val=2
         th, tw = H, W
     hi = draw(st.sampled_from([max_val, max_val, 3, 255, 4095])) if max_val >= 20 else max_val
     px = st.integers(0, hi)
-    left = draw(st.lists(st.lists(px, min_size=tw, max_size=tw), min_size=th, max_size=th))
+    if texture and draw(st.integers(0, 3)) != 0:
+        # non-periodic texture for large images: a seeded pseudo-random field (pure function of the drawn seed), so that
+        # matching is unambiguous and disparities follow the scene instead of the tile period
+        left = {"texture_seed": draw(st.integers(0, 10 ** 6)), "hi": hi}
+    else:
+        left = draw(st.lists(st.lists(px, min_size=tw, max_size=tw), min_size=th, max_size=th))
     mode = draw(st.sampled_from(["indep", "shift", "shift", "planes"]))
+    if isinstance(left, dict):
+        mode = draw(st.sampled_from(["shift", "planes", "planes"]))
     p = {"H": H, "W": W, "left": left, "mode": mode}
     if mode == "indep":
         p["right"] = draw(st.lists(st.lists(px, min_size=tw, max_size=tw), min_size=th, max_size=th))
@@ -91,7 +98,10 @@ def _mask(entries, H, W, valid, nodata) -> Optional[np.ndarray]:
 
 def materialise_pair(p):
     H, W = p["H"], p["W"]
-    left = _tile(p["left"], H, W)
+    if isinstance(p["left"], dict):
+        left = np.random.RandomState(p["left"]["texture_seed"]).randint(0, p["left"]["hi"] + 1, (H, W)).astype(np.float32)
+    else:
+        left = _tile(p["left"], H, W)
     for r, c, v in p.get("patch_left", []):
         left[r, c] = v
     if p["mode"] == "indep":
